@@ -101,7 +101,7 @@ def cases(draw):
     cfg = draw(metrics_cfgs(spec["order"]))
     nh = draw(st.sampled_from([1, 2, 0, 1, 3]))
     hist = [draw(history_sessions(spec["order"])) for _ in range(nh)]
-    return {"kernel": spec, "metrics": cfg, "history": hist}
+    return {"kernel": spec, "metrics": cfg, "history": hist, "reuse_prefix": draw(st.booleans())}
 
 
 def describe(spec, cfg):
@@ -130,7 +130,7 @@ def own_ops(counts):
     return {"payload_mul": counts.mul, "payload_add": counts.add, "payload_update": counts.update}
 
 
-def check_exact(res, spec, cfg, dirpath, base, who):
+def check_exact(res, spec, cfg, dirpath, base, who, shared_dir=False):
     """dump / traces of one session against the interpreter's own account."""
     where = f"{who}: {describe(spec, cfg)}"
     for label, dump in (("before", res.dump), ("after", res.dump_after)):
@@ -173,13 +173,13 @@ def check_exact(res, spec, cfg, dirpath, base, who):
                                 f"consumable rows {rows} -- {where}")
     traced_files = {f"{r}-{ty}.csv" for r, ty, how in cfg["traces"] if how in ("file", "both")}
     stray = set(res.files) - traced_files
-    if stray:
+    if stray and not shared_dir:
         raise Violation("stray-trace-file", f"session wrote files {sorted(stray)} that were not requested -- {where}")
 
 
 def session(spec, cfg, root, name, record=False):
     d = os.path.join(root, name)
-    os.mkdir(d)
+    os.makedirs(d, exist_ok=True)
     prep = K.prepare(spec)
     before = trees_of(prep)
     res = K.run_session(prep, cfg, os.path.join(d, "k"))
@@ -222,13 +222,18 @@ def check(case, rec):
         check_exact(a, spec, cfg, dir_a, "k", "fresh session")
 
         # pre-history
+        # with `reuse_prefix` the earlier sessions and the final one all write under ONE prefix (re-running a
+        # notebook cell): a new session must not inherit rows that an earlier session left in a file
+        reuse = bool(case.get("reuse_prefix"))
         for i, h in enumerate(case["history"]):
-            hres, _, _, hdir = session(h["kernel"], h["metrics"], root, f"H{i}")
-            check_exact(hres, h["kernel"], h["metrics"], hdir, "k", f"history session {i}")
+            hres, _, _, hdir = session(h["kernel"], h["metrics"], root, "S" if reuse else f"H{i}")
+            check_exact(hres, h["kernel"], h["metrics"], hdir, "k", f"history session {i}", shared_dir=reuse)
 
         # (3) same kernel after the pre-history
-        b, prep_b, _, dir_b = session(spec, cfg, root, "B")
-        check_exact(b, spec, cfg, dir_b, "k", "session after pre-history")
+        b, prep_b, _, dir_b = session(spec, cfg, root, "S" if reuse else "B")
+        check_exact(b, spec, cfg, dir_b, "k", "session after pre-history", shared_dir=reuse)
+        if reuse:
+            b.files = {k: v for k, v in b.files.items() if k in a.files}
         hist = [(h["kernel"]["order"], h["metrics"]) for h in case["history"]]
         for what, x, y in (("Metrics.dump()", a.dump, b.dump), ("Metrics.dump() after endCollect", a.dump_after, b.dump_after),
                            ("Metrics.loop_order", a.loop_order, b.loop_order),
@@ -248,6 +253,7 @@ def check(case, rec):
     traced_ranks = {r for r, ty, how in cfg["traces"] if r in spec["order"]}
     nrows = max([len(v) for v in a.files.values()] + [0])
     rec.cls(f"history{len(case['history'])}")
+    rec.cls("prefix-reused", bool(case.get("reuse_prefix")) and len(case["history"]) > 0)
     rec.cls("history-match", any(h["metrics"]["match"] for h in case["history"]))
     rec.cls("history-match-main-rank", any(set(m) & set(spec["order"]) for h in case["history"]
                                            for m in h["metrics"]["match"]))
@@ -295,3 +301,30 @@ def coverage_warnings(rec):
         if rec.classes.get(k, 0) / n < floor:
             out.append(f"{k} only {rec.classes.get(k, 0)}/{n}")
     return out
+
+
+def _pin_p30():
+    import tempfile as _tf
+    from fibertree import Tensor
+    d = _tf.mkdtemp(prefix="vf-c15pin-")
+    try:
+        pre = os.path.join(d, "k")
+        a = Tensor.fromUncompressed(["K"], [1, 2, 3]).getRoot()
+        e = Tensor(rank_ids=["K"], shape=[3]).getRoot()
+        for f in (a, e):
+            Metrics.beginCollect(pre)
+            try:
+                Metrics.trace("K")
+                z = Tensor(rank_ids=["M"], shape=[2])
+                if len(f.coords):
+                    for _ in f:
+                        pass
+            finally:
+                Metrics.endCollect()
+        n = Compute.numIters(pre + "-K-iter.csv") if os.path.getsize(pre + "-K-iter.csv") else 0
+        return None if n == 0 else f"second session (rank K never reached) reports {n} iterations left over from the first session"
+    finally:
+        shutil.rmtree(d, ignore_errors=True)
+
+
+PINNED = {"P30-stale-trace-file-same-prefix": _pin_p30}
